@@ -1,5 +1,23 @@
 import Driver.Util
+import Driver.C01
+import Driver.C02
+import Driver.C03
+import Driver.C04
+import Driver.C05
+import Driver.C06
+import Driver.C07
+import Driver.C08
+import Driver.C09
+import Driver.C10
+import Driver.C11
+import Driver.C12
+import Driver.C13
+import Driver.C14
+import Driver.C15
+import Driver.C16
+import Driver.C17
 import Driver.C18
+import Driver.C19
 
 def dispatch (line : String) : String :=
   match line.splitOn "\t" with
@@ -9,7 +27,25 @@ def dispatch (line : String) : String :=
     | [p, op] =>
       let r : Option String :=
         match p with
+        | "C01" => Driver.C01.handle op args
+        | "C02" => Driver.C02.handle op args
+        | "C03" => Driver.C03.handle op args
+        | "C04" => Driver.C04.handle op args
+        | "C05" => Driver.C05.handle op args
+        | "C06" => Driver.C06.handle op args
+        | "C07" => Driver.C07.handle op args
+        | "C08" => Driver.C08.handle op args
+        | "C09" => Driver.C09.handle op args
+        | "C10" => Driver.C10.handle op args
+        | "C11" => Driver.C11.handle op args
+        | "C12" => Driver.C12.handle op args
+        | "C13" => Driver.C13.handle op args
+        | "C14" => Driver.C14.handle op args
+        | "C15" => Driver.C15.handle op args
+        | "C16" => Driver.C16.handle op args
+        | "C17" => Driver.C17.handle op args
         | "C18" => Driver.C18.handle op args
+        | "C19" => Driver.C19.handle op args
         | _ => none
       r.getD "bad-op"
     | _ => "bad-op"
@@ -17,7 +53,7 @@ def dispatch (line : String) : String :=
 partial def loop (hin hout : IO.FS.Stream) : IO Unit := do
   let line ← hin.getLine
   if line.isEmpty then return ()
-  let line := if line.endsWith "\n" then line.dropRight 1 else line
+  let line := if line.endsWith "\n" then String.ofList line.toList.dropLast else line
   hout.putStrLn (dispatch line)
   hout.flush
   loop hin hout
